@@ -54,6 +54,16 @@ def sketch_result(p, fname):
     for e in p.events:
         if e.kind == "call" and e.name == fname and e.target is not None and e.target.cls.name == "CountMinSketch":
             return strip_epochs(e.result), e
+    # an update by 0 changes no counter and returns what a look-up returns (C02: the value returned by add / remove equals what check
+    # reports immediately afterwards): where the path has established num_els == 0, the sketch's check_alt stands for the update
+    zero = any((strip_epochs(c.atom) == ("p", "num_els") and not c.truth) or
+               (strip_epochs(c.atom) in (("cmp", "==", ("p", "num_els"), C(0)),) and c.truth) or
+               (strip_epochs(c.atom) in (("cmp", "!=", ("p", "num_els"), C(0)),) and not c.truth) for c in p.conds)
+    if zero:
+        for e in p.events:
+            if e.kind == "call" and e.name == "check_alt" and e.target is not None and e.target.cls.name == "CountMinSketch" and e.args \
+                    and strip_epochs(e.args[0]) == ("p", "hashes"):
+                return strip_epochs(e.result), e
     return None, None
 
 
